@@ -3,7 +3,7 @@
 # (apply patch to /repo, ./check <prop> quick, revert) and reports changes that have become silent.
 # Evidence files are preserved (they describe runs on the real tree).
 cd /verif
-IDS="$*"; [ -z "$IDS" ] && IDS=$(ls seeded)
+IDS="$*"; [ -z "$IDS" ] && IDS=$(ls seeded | grep -v "^_")
 if ! git -C /repo diff --quiet; then echo "/repo has uncommitted changes; refusing"; exit 2; fi
 rm -rf .work/evidence.regress && cp -r evidence .work/evidence.regress
 SILENT=""
@@ -17,7 +17,8 @@ print(' '.join(p for p,r in m.get('checks_run',{}).items() if r.get('exit')==1))
   for p in $props; do
     ./check $p quick > .work/regress_${id}_$p.log 2>&1; rc=$?
     rule=$(grep -m1 '^violation rule=' .work/regress_${id}_$p.log | sed 's/^violation rule=\([^ ]*\).*/\1/')
-    echo "$id $p exit=$rc $rule"
+    vr=$(grep -o 'violating_runs=[0-9]*' .work/regress_${id}_$p.log | head -1 | cut -d= -f2)
+    echo "$id $p exit=$rc $rule violating_runs=${vr:-?}"
     [ $rc -ne 1 ] && SILENT="$SILENT $id/$p(exit=$rc)"
   done
   git -C /repo checkout -- .
